@@ -29,10 +29,10 @@ def gen_cases(rng, tier):
     nb = 700 if tier == "quick" else 6000
     for _ in range(nb):
         single = rng.random() < 0.6
-        size = rng.choice([1, 1, 2, 3, 4, 5, 6, 8, 16])
+        size = rng.choice([1, 1, 2, 3, 4, 5, 6, 8, 16, 7, 9, 11, 13, 15])      # widths that are not a power of two included
         ops = []
         for _ in range(rng.randint(1, 10)):
-            sz = size if single else rng.choice([1, 2, 3, 5, 8])
+            sz = size if single else rng.choice([1, 2, 3, 5, 8, 7, 12])
             idxs = [rng.choice([0, 1, 2, 3, 5, 17, 63]) for _ in range(rng.randint(1, 3))]
             if rng.random() < 0.6:
                 by = rng.choice([1, 1, -1, 2, -2, 3, 7, -8, 70, -70, 2 ** sz, -(2 ** sz), 2 ** sz - 1, 2 ** sz + 1, -(2 ** sz) - 2, 2 ** 17, -(2 ** 17), 0])
@@ -40,9 +40,9 @@ def gen_cases(rng, tier):
             else:
                 ops.append(["get", idxs, sz])
         v0 = rng.choice([0, 0, rng.getrandbits(40), rng.getrandbits(130)])
-        via = rng.choice(["bitarray", "memory", "memory_fresh"])
+        via = rng.choice(["bitarray", "memory", "memory_fresh", "facade"])      # facade: Cache.incr_bits / get_bits on a fresh key
         # memory_fresh: the key does not exist yet (v0 = 0) and another never-written key has just been incremented
-        cases.append({"kind": "bits", "via": via, "v0": 0 if via == "memory_fresh" else v0, "ops": ops})
+        cases.append({"kind": "bits", "via": via, "v0": 0 if via in ("memory_fresh", "facade") else v0, "ops": ops})
     if tier == "thorough":  # exhaustive sub-space: all (index<64, size<=6, |by|<=70) on a fixed seed array
         seed = 0x5A5A_F00F_1234_ABCD_0F0F_3C3C_9999_7777_1111_EEEE_8888_5555_AAAA_2468_1357_FFFF_0000_FEDC_BA98_7654_3210_0123_4567_89AB_CDEF
         for size in range(1, 7):
@@ -121,9 +121,17 @@ def run_impl(case):
 
         async def go():
             from cashews.backends.memory import Memory
-            mem = Memory(check_interval=0)
-            await mem.init()
-            if case["via"] == "memory_fresh":
+            if case["via"] == "facade":
+                from cashews import Cache
+                mem = Cache()
+                mem.setup("mem://?check_interval=0")
+                await mem.init()
+            else:
+                mem = Memory(check_interval=0)
+                await mem.init()
+            if case["via"] == "facade":
+                pass
+            elif case["via"] == "memory_fresh":
                 await mem.incr_bits("other", 0, 1, 5, size=3, by=3)
                 await mem.get_bits("third", 0, 2, size=2)
             else:
@@ -134,7 +142,8 @@ def run_impl(case):
                     outs.append(list(await mem.incr_bits("bits", *op[1], size=op[2], by=op[3])))
                 else:
                     outs.append(list(await mem.get_bits("bits", *op[1], size=op[2])))
-            fin = await mem._get("bits")
+            store = mem._get_backend("bits").store if case["via"] == "facade" else mem.store
+            fin = store["bits"][1] if "bits" in store else None
             final = fin.to_int() if fin is not None else 0
             await mem.close()
             return {"outs": outs, "final": final}
